@@ -181,6 +181,28 @@ Proof.
 Qed.
 
 (* ------------------------------------------------------------------ *)
+(* sample_qubo mixin: BinaryQuadraticModel.from_qubo folds self-loops; on binary samples the BQM
+   has the energy of the QUBO as written *)
+Open Scope Qc_scope.
+Lemma from_qubo_fold Q s : respects (fun _ => BINARY) s -> forall p,
+  energy (fold_left (fun p t => add_quadratic (fun _ => BINARY) (fst (fst t)) (snd (fst t)) (snd t) p) Q p) s
+  = energy p s + quad_energy Q s.
+Proof.
+  intros Hr. induction Q as [|t Q IH]; intros p; cbn [fold_left].
+  - unfold quad_energy. cbn [map qsum]. ring.
+  - rewrite IH, energy_add_quadratic by exact Hr. rewrite quad_energy_cons. ring.
+Qed.
+
+Theorem from_qubo_energy Q s :
+  respects (fun _ => BINARY) s -> energy (from_qubo Q) s = energy (qubo_poly Q) s.
+Proof.
+  intros Hr. unfold from_qubo. rewrite from_qubo_fold by exact Hr.
+  unfold energy, qubo_poly, pzero. cbn [p_off p_lin p_quad]. unfold lin_energy. cbn [map qsum].
+  change (quad_energy [] s) with 0. ring.
+Qed.
+Close Scope Qc_scope.
+
+(* ------------------------------------------------------------------ *)
 (* StructureComposite *)
 
 Lemma mem_nat_In v l : mem_nat v l = true <-> In v l.
